@@ -260,6 +260,13 @@ def run(ctx):
     ctx.run_cases("tokeniser", lcases, lpath, exec_lex, "Judge_Lexer", keyfn, nontrivial)
     docs = gen_docs(ctx, "MC_Asc.gen.%s.cfg" % ctx.tier) + gen_docs(ctx, "MC_Asc.genm.%s.cfg" % ctx.tier)
     cases = expand(docs, ctx.rng, q)
+    cap = 60000
+    if len(cases) > cap:
+        # (thorough) every document TLC produced is expanded into its complete form, every prefix and every corruption: hundreds of thousands of
+        # variants, a gigabyte of case records that the judge has to read - an evenly spread, seed-shifted sample of them is executed
+        step = len(cases) / float(cap)
+        cases = [cases[int((i * step + ctx.seed) % len(cases))] for i in range(cap)]
+        ctx.exhaustive = False
     p = ctx.write_cases("produced", cases)
     ctx.run_cases("produced", cases, p, execute, "Judge_Asc", keyfn, nontrivial)
     rd = expand(random_docs(ctx, 60 if q else 1500), ctx.rng, True)
